@@ -126,7 +126,7 @@ def parse_vc(path):
                     if not m:
                         raise SystemExit(f"{path}:{ln}: bad //@subst")
                     cur.subst.append((m.group(1).replace('\\"', '"'), m.group(2).replace('\\"', '"'), (m.group(3) or "#N?") + ("*" if allflag else "") + ("?" if word == "subst?" else "")))
-                elif word in ("sig", "loop", "closure", "before", "after", "wraptail", "armstart", "armend", "bodystart", "tryproof"):
+                elif word in ("sig", "loop", "loopstart", "closure", "before", "after", "wraptail", "armstart", "armend", "bodystart", "tryproof"):
                     blk = Block(word, rest, path, ln)
                     cur.blocks.append(blk)
                 else:
@@ -495,6 +495,12 @@ def emit_fn(out, entry, mode, stats, canary=False):
                 if in_i is None:
                     raise LostAnchor(f"{entry.id}: loop#{k}: no `in`")
                 edits.append((in_i + 1, in_i + 1, f" {m_it.group(1)}:", dict(kind="gen", fn=entry.id)))
+        # loopstart k: ghost text at the very start of the body of the k-th loop (a structural anchor: it does not quote the body)
+        for b in entry.block("loopstart"):
+            k = int(b.arg.split()[0])
+            if k < 1 or k > len(loops):
+                raise LostAnchor(f"{entry.id}: loop#{k} not found ({len(loops)} loops)")
+            edits.append((loops[k - 1][1] + 1, loops[k - 1][1] + 1, "\n" + b.text().rstrip("\n") + "\n", vc_origin(b)))
         # closures
         closures = []
         for n, i in enumerate(body):
